@@ -166,7 +166,7 @@ func (c05) scripts(c *core.Ctx) []c05script {
 	nrand := 40000
 	maxOps, maxStmts := 8, 3
 	if c.Tier == "thorough" {
-		single, nrand, maxOps, maxStmts = 5, 500000, 12, 4
+		single, nrand, maxOps, maxStmts = 5, 3000000, 12, 4
 	}
 	seqs := enumSeqs(single)
 	for nc := 0; nc <= 2; nc++ {
